@@ -120,7 +120,7 @@ PROPS = {
                       "by the line buffers); the location for every replaced statement of four catalogue programs checked on the real parser",
                 trusted=TRUSTED + "; bounded catalogue",
                 explanation="[P] U1, G2 (R7); [B] garbage at every statement"),
-    "C13": dict(level="other", enum=["bounded_trees.py --only C13"],
+    "C13": dict(level="other", enum=["bounded_trees.py --only C13", ("enum_frame.py", ["frame.inventory"])],
                 claim="put_item proved to reach the innermost include reader; include resolution compared with inlined text for every split of a small "
                       "program into main text and include file (file and string readers, two include directories, first match wins); unresolved include kept",
                 trusted=TRUSTED + "; bounded catalogue; file system behaviour",
